@@ -8,6 +8,7 @@ usage: driver <debug|release>  < ops  > trace
 -/
 import Micromap.Model.Sys
 import Micromap.Model.StdIter
+import Micromap.Model.StdIterB
 
 open Micromap
 
@@ -180,6 +181,19 @@ def parseScript? (s : String) : Option (List IterCmd) :=
     | 'n' => some .next | 'l' => some .len | 'h' => some .hint | 'd' => some .debug
     | 'D' => some .debugAlt | 'c' => some .clone | 'x' => some .count | 'f' => some .fold
     | _ => none
+
+/-- a script with std's provided methods: `t<digit>` = `nth(digit)`, `z` = `last()`. -/
+def parseScriptX? (s : String) : Option (List IterCmdX) :=
+  if s == "-" then some [] else go s.toList
+where
+  go : List Char → Option (List IterCmdX)
+    | [] => some []
+    | 't' :: d :: cs =>
+      if d.isDigit then (go cs).map (IterCmdX.nth (d.toNat - '0'.toNat) :: ·) else none
+    | 'z' :: cs => (go cs).map (IterCmdX.last :: ·)
+    | c :: cs => do
+      let b ← parseScript? (String.singleton c)
+      pure (b.map IterCmdX.base ++ (← go cs))
 
 def addVal (n : Int) : DVal → DVal := fun v => { v with val := v.val + n }
 
@@ -589,8 +603,9 @@ def keysOfRaw (r : Raw DKey Unit) : List (DKey × Unit) :=
 /-- `Set<&T, N>::difference_ref`: both operands are first collected into sets of references
     (`FromIterator`, i.e. the model's `from_iter` on the same key objects — references have no
     drop glue, so the scratch sets are simply discarded), then `DifferenceRef` is `Difference`
-    at `T = &Key` (the model's `algOp .difference`). -/
-def diffRefStep (E : Env DKey DVal DKey) (sys : Sys DKey DVal DKey) (i o : Nat) (script : List IterCmd) :
+    at `T = &Key` (the model's `algOpX .difference`, which is `algOp .difference` on scripts
+    without `nth` / `last`: `StdIterB.algOpX_base`). -/
+def diffRefStep (E : Env DKey DVal DKey) (sys : Sys DKey DVal DKey) (i o : Nat) (script : List IterCmdX) :
     Sys DKey DVal DKey × Out DKey DVal DKey :=
   customStep sys [] [i, o] fun sys0 =>
     let a := sys0.sets i
@@ -604,7 +619,7 @@ def diffRefStep (E : Env DKey DVal DKey) (sys : Sys DKey DVal DKey) (i o : Nat) 
       | .ub => .ub
       | .panic c s => .panic c { sys0 with w := sys0.w.mergeUnit s.w }
       | .ok _ s2 =>
-        match algOp F render.dbgK .difference s1.r s2.r script ⟨s1.r, s2.w⟩ with
+        match algOpX F render.dbgK .difference s1.r s2.r script ⟨s1.r, s2.w⟩ with
         | .ub => .ub
         | .panic c s => .panic c { sys0 with w := sys0.w.mergeUnit s.w }
         | .ok l s3 => .ok (RV.castU (.list l)) { sys0 with w := sys0.w.mergeUnit s3.w }
@@ -685,73 +700,66 @@ def stdConsumeStep (E : Env DKey DVal DKey) (sys : Sys DKey DVal DKey) (toks : L
   | _ => none
 
 
-/-! ### `nth(k)` and `last()` in iterator scripts
+/-! ### `nth(k)` and `last()` in iterator scripts: `Model/StdIterB.lean`
 
-Script letters `t<digit>` and `z`.  For the borrowing iterators these are std's provided methods
-(`advance_by` + `next`, resp. a fold over `next`): the script is rewritten into `next` steps of
-the model and the results std discards are removed from the output.  For the lazy set operations
-`last()` is std's `fold`-based default, so it goes through the model's `fold` (the crate overrides
-`fold` there) and the last visited element is reported. -/
-inductive OutAct where
-  | keep | drop | lastOfFold
+Script letters `t<digit>` and `z`.  `iter` / `alg` lines whose script contains one of them run the
+model's `iterOpX` / `algOpX` — std's provided methods written over the model's `next` (and, for the
+lazy set operations, `fold`) — on the register, exactly as `Micromap.step` runs `iterOp` / `algOp`
+for the plain scripts (`runOnMap` / `runOnSet`, the result as a list, the same touched registers).
+Plain scripts go through `Micromap.step`. -/
+def parseIterKind? (s : String) : Option IterKind :=
+  match s with
+  | "iter" => some .iter | "keys" => some .keys | "values" => some .values
+  | "iter_mut" => some .iter_mut | "values_mut" => some .values_mut | _ => none
 
-/-- rewrite a script; `len` = entries of the container (only needed for `z` on a borrowing
-    iterator), `adv` = `next` steps emitted so far. -/
-def rewriteScript (isAlg : Bool) (len : Nat) : List Char → Nat → List Char × List OutAct
-  | [], _ => ([], [])
-  | 't' :: d :: cs, adv =>
-    let k := d.toNat - '0'.toNat
-    let (r, a) := rewriteScript isAlg len cs (adv + k + 1)
-    (List.replicate (k + 1) 'n' ++ r, List.replicate k OutAct.drop ++ [OutAct.keep] ++ a)
-  | 'z' :: _, adv =>
-    if isAlg then (['f'], [OutAct.lastOfFold])
-    else
-      let rem := len - min adv len
-      let n := max rem 1
-      (List.replicate n 'n', List.replicate (n - 1) OutAct.drop ++ [OutAct.keep])
-  | 'c' :: cs, adv =>
-    let (r, a) := rewriteScript isAlg len cs adv
-    ('c' :: r, a)
-  | 'n' :: cs, adv =>
-    let (r, a) := rewriteScript isAlg len cs (adv + 1)
-    ('n' :: r, OutAct.keep :: a)
-  | c :: cs, adv =>
-    let (r, a) := rewriteScript isAlg len cs adv
-    (c :: r, OutAct.keep :: a)
+def parseAlgKind? (s : String) : Option AlgKind :=
+  match s with
+  | "difference" => some .difference | "intersection" => some .intersection
+  | "union" => some .union | "symmetric_difference" => some .symmetric_difference | _ => none
 
-def applyActs : List OutAct → List (RV DKey DVal) → List (RV DKey DVal)
-  | [], rest => rest                      -- the run-out of the clones follows
-  | _, [] => []
-  | .keep :: as, x :: xs => x :: applyActs as xs
-  | .drop :: as, _ :: xs => applyActs as xs
-  | .lastOfFold :: as, x :: xs =>
-    (match x with
-     | .list l => (match l.getLast? with
-        | some (.oref o s y) => RV.some (.oref o s y)
-        | some y => RV.some y
-        | none => RV.none)
-     | y => y) :: applyActs as xs
-
-def regLen (sys : Sys DKey DVal DKey) (reg : String) : Nat :=
-  match reg with
-  | "m0" => (sys.maps 0).len | "m1" => (sys.maps 1).len
-  | "s0" | "u0" => (sys.sets 0).len | "s1" | "u1" => (sys.sets 1).len
-  | _ => 0
-
-def hasSugar (script : String) : Bool := script.toList.any fun c => c == 't' || c == 'z'
-
-/-- rewrite the script token of `iter` / `alg` lines. -/
-def desugarScript (sys : Sys DKey DVal DKey) (toks : List String) : List String × Option (List OutAct) :=
-  let go (pre : List String) (reg script : String) (isAlg : Bool) : List String × Option (List OutAct) :=
-    if hasSugar script then
-      let (r, a) := rewriteScript isAlg (regLen sys reg) script.toList 0
-      (pre ++ [String.ofList r], some a)
-    else (toks, none)
+def stdScriptStep (E : Env DKey DVal DKey) (sys : Sys DKey DVal DKey) (toks : List String) :
+    Option (Sys DKey DVal DKey × Out DKey DVal DKey) := do
+  let listOut {α : Type} (r : Res α (List (RV DKey Unit))) : Res α (RV DKey DVal) :=
+    match r with
+    | .ok l s => .ok (RV.list l).castU s
+    | .panic c s => .panic c s
+    | .ub => .ub
+  let parse (script : String) : Option (List IterCmdX) := do
+    let sc ← parseScriptX? script
+    if sc.all IterCmdX.isBase then none else pure sc
   match toks with
-  | [reg, "iter", kind, n, script] => go [reg, "iter", kind, n] reg script false
-  | [reg, "iter", script] => go [reg, "iter"] reg script false
-  | [reg, "alg", kind, o, script] => go [reg, "alg", kind, o] reg script true
-  | _ => (toks, none)
+  | [reg, "iter", kind, n, script] =>
+    let sc ← parse script
+    let kind ← parseIterKind? kind
+    let n ← parseInt? n
+    match reg with
+    | "m0" | "m1" =>
+      let i := if reg == "m0" then 0 else 1
+      pure (customStep sys [i] [] fun sys0 =>
+        match runOnMap sys0 i (iterOpX render kind (addVal n) sc) with
+        | .ok l s => .ok (.list l) s
+        | .panic c s => .panic c s
+        | .ub => .ub)
+    | "u0" | "u1" =>
+      let i := if reg == "u0" then 0 else 1
+      pure (customStep sys [] [i] fun sys0 =>
+        listOut (runOnSet sys0 i (iterOpX render.toUnit kind id sc)))
+    | _ => none
+  | [reg, "iter", script] =>
+    let sc ← parse script
+    let i ← parseSetReg? reg
+    pure (customStep sys [] [i] fun sys0 =>
+      listOut (runOnSet sys0 i (iterOpX render.toUnit .keys id sc)))
+  | [reg, "alg", kind, o, script] =>
+    let sc ← parse script
+    let i ← parseSetReg? reg
+    let o ← parseSetReg? o
+    let kind ← parseAlgKind? kind
+    pure (customStep sys [] [i, o] fun sys0 =>
+      listOut (runOnSet sys0 i do
+        let s ← getS
+        algOpX E.toUnit render.toUnit.dbgK kind s.r (sys0.sets o) sc))
+  | _ => none
 
 structure CaseCfg where
   capM : Nat → Nat
@@ -810,17 +818,13 @@ partial def loop (profile : Profile) (h : IO.FS.Stream) (out : IO.FS.Stream) (st
   | _ =>
     let toks0 := toks
     let (toks, sg) := desugar toks
-    let (toks, acts) := desugarScript st.sys toks
-    let fixActs (o : Out DKey DVal DKey) : Out DKey DVal DKey :=
-      match acts, o.ret with
-      | some a, .list l => { o with ret := .list (applyActs a l) }
-      | _, _ => o
     -- operations composed in the driver
     let customOut : Option (Sys DKey DVal DKey × Out DKey DVal DKey) :=
       if let some r := stdConsumeStep st.env st.sys toks0 then some r else
+      if let some r := stdScriptStep st.env st.sys toks0 then some r else
       match toks with
       | [reg, "alg", "difference_ref", o, script] =>
-        match parseSetReg? reg, parseSetReg? o, parseScript? script with
+        match parseSetReg? reg, parseSetReg? o, parseScriptX? script with
         | some i, some j, some sc => some (diffRefStep st.env st.sys i j sc)
         | _, _, _ => none
       | [reg, "extend_ref", init, xs] =>
@@ -858,7 +862,7 @@ partial def loop (profile : Profile) (h : IO.FS.Stream) (out : IO.FS.Stream) (st
       | [reg, "defaults"] => (parseReg? reg).map fun (isMap, i) => defaultsStep st.env st.sys isMap i
       | _ => none
     if let some (sys', o) := customOut then
-      out.putStrLn (outLine sys' (fixActs o) false)
+      out.putStrLn (outLine sys' o false)
       loop profile h out { st with sys := sys' }
     else
     match parseOp? toks with
@@ -868,7 +872,7 @@ partial def loop (profile : Profile) (h : IO.FS.Stream) (out : IO.FS.Stream) (st
     | some op =>
       let (sys', o) := step st.env render st.sys op
       let isUnit := match op with | .map _ _ => false | _ => true
-      let o := fixActs (applySugar sg isUnit o)
+      let o := applySugar sg isUnit o
       let isEnd := match op with | .endCase => true | _ => false
       out.putStrLn (outLine sys' o isEnd)
       loop profile h out { st with sys := sys' }
